@@ -205,7 +205,7 @@ VALUES = [None, True, False, 0, 1, -1, 1.0, -0.0, 0.1, 2 ** 63, 2 ** 64 + 1, -(1
           {"a": {"b": [True, 1.5]}}, {"b": 1, "a": 2}, [1, 1.0, True], "null",
           # not JSON-safe
           (1, 2), [1, (2,)], {"a": (1,)}, {1: "x"}, {True: 1}, {None: 0}, {"1": "y", 1: "x"}, {(1, 2): 3}, {1, 2}, b"by",
-          [[]], [{}], {"": ""}, 1e-320, 10 ** 20, "true", [None], "None", "false", "0", 0.0, [0], [""], {"": None}, [False]] + _cyclic_values() + _shared_values() + _other_containers()
+          [[]], [{}], {"": ""}, 1e-320, 10 ** 20, "true", [None], "None", "false", "0", 0.0, [0], [""], {"": None}, [False], "\ufeffinstalled", "\ufeff", "x\ufeff", "\ufffe", " x ", "x\n"] + _cyclic_values() + _shared_values() + _other_containers()
 PREFIXES = ["", "pre", "p:q", "p", "net", "p:q:r", "net:", ":x", "a::b", ":"]
 
 
@@ -232,7 +232,7 @@ def twins(v):
             out += [v[:i] + [y] + v[i + 1:] for y in twins(x)]
     elif isinstance(v, dict):
         for k, x in v.items():
-            out += [dict(v, **{k: y}) for y in twins(x)]
+            out += [{**v, k: y} for y in twins(x)]
     return out
 LOOKUP_KEYS = ["k", "p:q:k", "pre:k", "p:qk", "p:q:", "p:q", "pre:", "flag", "pre:flag", "p:q:flag", "p:q:k:x", ":k", "prek"]
 URIS = ["/upd/a", "/upd/b?x=1", "/upd/", "/upd", "/other/a", "/upd/a%20b", "/upd/%41", "/upd/a%00", "/upd/%C3%A9",
@@ -245,7 +245,8 @@ SPECIAL_URIS = [("/upd/a%3Fx", "a?x", "a"), ("/upd/a%3Fx?y=1", "a?x", "a"), ("/u
                 ("/upd/a%23b", "a#b", "a"), ("/upd/a%25b", "a%b", "a"), ("/upd/a%252Fb", "a%2Fb", "a/b"), ("/upd/a%2Fb", "a/b", "a"),
                 ("/upd/a+b", "a+b", "a b"), ("/upd/a%20b?q=a%3Fb", "a b", "a"), ("/upd/%C3%A9%3F", "\u00e9?", "\u00e9"),
                 ("/upd/a?x%3Fy", "a", "a?y"), ("/upd/a%3F", "a?", "a"), ("/upd/%C3%A9", "\u00e9", "e")]
-BODIES = [b"0", b'""', b"null", b"false", b"[]", b"{}", b"0.0", b'"\xed\xa0\x80"', b'{"a": [1, 2.5, null]}', b'"x"', b"1e999", b"NaN", b"[1,", b"\xff", b"", b'{"a":1,"a":2}', b"12345678901234567890123",
+BODIES = [b"\xef\xbb\xbfinstalled", b"\xef\xbb\xbf", b"a\xef\xbb\xbfb", b'\xef\xbb\xbf"x"', b'"\xef\xbb\xbfx"', b"\xef\xbf\xbe", b"\x00",
+          b" x ", b"x\n", b"\r\n", b"0", b'""', b"null", b"false", b"[]", b"{}", b"0.0", b'"\xed\xa0\x80"', b'{"a": [1, 2.5, null]}', b'"x"', b"1e999", b"NaN", b"[1,", b"\xff", b"", b'{"a":1,"a":2}', b"12345678901234567890123",
           b"hello", b"\xc3\xa9", b"\xff\xfe", b"true", b" 1 ", b'"\\ud800"', b"1.0", b"-0.0", b"[1, 2] x"]
 CLENS = ["=", "=", "=", None, "x", "0", "3", "-1", " 5 ", "1_0", "99"]
 
@@ -261,7 +262,7 @@ def _nest(depth, leaf, as_dict=False):
 LIMIT_VALUES = ["v" * 255, "v" * 256, "v" * 4096, _nest(16, 0), _nest(17, 0), _nest(64, None), _nest(17, "", True),
                 _nest(64, [], True), "\x01\x1f\x7f", "\t\n\r", 2 ** 1000, -(2 ** 1000), 1e-310, 1.7976931348623157e308,
                 list(range(300)), {str(i): i for i in range(200)}]
-LIMIT_IDS = ["s" * 255, "s" * 256, "s" * 4096, "\x01\x7f", " ", "\t", "a\nb"]
+LIMIT_IDS = ["\ufeffa", "\ufeff", "s" * 255, "s" * 256, "s" * 4096, "\x01\x7f", " ", "\t", "a\nb"]
 
 
 class Httpd:
@@ -321,6 +322,11 @@ def handler_pool():
         {"path": "/upd", "action": "set_value", "key": "flag", "value": [1], "cal": ["::1", "192.0.2.1"]},
         {"path": "/upd", "action": "set_value", "key": "flag", "value": "", "cal": None},
         {"path": "/upd", "action": "set_value", "key": "flag", "value": _cyclic_values()[1], "cal": None},
+        {"path": "/upd", "action": "set_value", "key": "k", "value": {1: "pxe", 2: "local"}, "cal": None},
+        {"path": "/upd", "action": "set_value", "key": "flag", "value": {True: 1, None: 0}, "cal": None},
+        {"path": "/upd", "action": "set_value", "key": "k", "value": ["x", ("y", 1)], "cal": None},
+        {"path": "/upd", "action": "set_value", "key": "flag", "value": {"a": {"b": (1,)}}, "cal": ["::1", "192.0.2.1"]},
+        {"path": "/upd", "action": "set_value", "key": "k", "value": {"1": "s", 1: "i"}, "cal": None},
         {"path": "/upd", "action": "set_value", "key": "k", "value": _shared_values()[0], "cal": None},
         {"path": "/upd", "action": "set_value", "key": "flag", "value": _shared_values()[3], "cal": None},
         {"path": "/upd", "action": "set_value", "key": "flag", "value": None, "cal": None},
@@ -575,6 +581,29 @@ class C15(Check):
                         steps.insert(0, ("store", rng.randrange(3), "set", rng.choice(["b", "c"]), h["key"], h["value"]))
                     case["steps"] = steps
                     yield case
+        # directed: body-reading handlers with bodies whose first/last characters a codec or a parser might drop
+        #     (BOM / U+FEFF, U+FFFE, NUL, blanks, line ends); the value is read back and looked up through stores
+        special = [b"\xef\xbb\xbfinstalled", b"\xef\xbb\xbf", b"a\xef\xbb\xbfb", b'\xef\xbb\xbf"x"', b'"\xef\xbb\xbfx"', b"\xef\xbf\xbe",
+                   b"\x00", b" x ", b"x\n", b"\r\n", b"\xef\xbb\xbf\xef\xbb\xbf", b'" x"', b"\t1"]
+        for h in hp:
+            if "request_body" not in h["action"]:
+                continue
+            for bd in special:
+                if tier == "quick" and rng.random() < 0.4:
+                    continue
+                case = {"stores": [True, True, False], "sources": [("", True), ("pre", True)], "handlers": [h, rng.choice(hp)]}
+                s = rng.choice(["a", "b"])
+                try:
+                    txt = bd.decode()
+                except ValueError:
+                    txt = ""
+                steps = [("handler", 0, {"method": "POST", "uri": "/upd/" + s, "ip": "192.0.2.1", "clen": "=", "body": bd,
+                                         "via": rng.random() < 0.4}),
+                         ("store", rng.randrange(3), "get", s, h["key"]),
+                         ("store", rng.randrange(3), "find", h["key"], txt),
+                         ("store", rng.randrange(3), "find", h["key"], txt.lstrip("\ufeff").strip())]
+                case["steps"] = steps
+                yield case
         # directed: every handler action addressed to a system id that needs percent-encoding; the addressed system
         # and its look-alike both hold data before the request, the snapshots show which rows changed
         for rep in range(1 if tier == "quick" else 6):
@@ -613,8 +642,13 @@ class C15(Check):
                 quick_busy(s._data_store._connection)
                 sources.append(s)
             for h in c["handlers"]:
-                hd = sqlite_update.get_instance_http(handler_config(h, path))
-                quick_busy(hd._data_store._connection)
+                # through the real factory; a configuration the constructor refuses is an observation, not a harness
+                # error: every request to that handler then reports the constructor's exception
+                try:
+                    hd = sqlite_update.get_instance_http(handler_config(h, path))
+                    quick_busy(hd._data_store._connection)
+                except Exception as e:      # noqa: BLE001
+                    hd = e
                 handlers.append(hd)
             READER.cmd({"open": path})
             # a foreign program: one raw connection that takes/gives up the write lock, one that issues statements
@@ -635,7 +669,7 @@ class C15(Check):
                 except Exception:       # noqa: BLE001
                     pass
             self.locker = self.ext = None
-            for x in stores + sources + handlers:
+            for x in stores + sources + [y for y in handlers if not isinstance(y, Exception)]:
                 try:
                     x.close()
                 except Exception:       # noqa: BLE001
@@ -690,6 +724,8 @@ class C15(Check):
             return [4, [] if r is None else [u8(r)]]
         h = handlers[st[1]]
         req = st[2]
+        if isinstance(h, Exception):
+            raise h
         if req.get("via"):
             return [6, HTTPD.request(h, req["method"], req["uri"], clen_of(req), req["body"])]
         ctx = h.prepare_context(req["uri"])
